@@ -3,7 +3,7 @@
 # a copy of /verif (with its .lake) and a scratch worktree of /repo HEAD are made under /tmp/vsweep; each patch is applied to the
 # worktree, the copy's ./check runs with VERIF_REPO pointing at it, the patch is undone. Results: /verif/seeded/RESULTS.jsonl
 GLOBS="${@:-C*}"
-S=/tmp/vsweep
+S=${VSWEEP_DIR:-/tmp/vsweep}
 rm -rf $S/verif; mkdir -p $S
 git -C /repo worktree remove --force $S/repo >/dev/null 2>&1; rm -rf $S/repo
 git -C /repo worktree add --detach $S/repo HEAD >/dev/null 2>&1 || { echo "worktree failed"; exit 2; }
